@@ -18,68 +18,7 @@ func init() {
 func runC17(c *an.Ctx) {
 	c.Explanation = "A11 siblings + A5 frame on the writers of Transaction.SignedAddr (the witness set contracts see): the writers are enumerated (only TransactionFromEIP155, Transaction.GetSignatureAddresses and the validator's checkTransactionSignatures may assign it); for each, the address constructors feeding the stored list are extracted, and the two Ontology-format writers — the validator and the fallback used by nodes that receive sealed blocks — must use the same derivation; " +
 		"the stored list may only be built by appending constructed addresses (no zero-valued tail from a pre-sized make); and the address derivation functions must be pure functions of their arguments (no process-wide mutable state such as caches on the derivation path). Decides these necessary conditions for 'same bytes, same signer set on every node'; does not decide equality of derived addresses as values."
-	field := c.P.Field("core/types.Transaction.SignedAddr")
-	if field == nil {
-		c.Undecide("anchor|Transaction.SignedAddr", "anchors must resolve", "-", "field not found")
-		return
-	}
-	addrT, _ := c.P.Obj("common.Address").(*types.TypeName)
-	allowed := map[string]string{
-		"core/types.TransactionFromEIP155":                  "eip155",
-		"(*core/types.Transaction).GetSignatureAddresses":   "ont-fallback",
-		"core/validation.checkTransactionSignatures":        "ont-validator",
-		"(*core/types.MutableTransaction).IntoImmutable":    "construction (no signer set)",
-	}
-	ctors := map[string][]string{}
-	var writers []string
-	for _, fn := range c.P.RepoSrcFuncs() {
-		if strings.HasSuffix(c.P.Fset.Position(fn.Pos()).Filename, "_test.go") {
-			continue
-		}
-		for _, w := range an.DirectFieldWrites(fn) {
-			if w.Field != field || w.Kind != "store" {
-				continue
-			}
-			name := an.FuncName(fn)
-			writers = append(writers, name)
-			_, ok := allowed[name]
-			c.Check(ok, "confine|SignedAddr|"+name, "only the validator, the sealed-block fallback and the EIP-155 decoder assign the signer set", c.P.Rel(w.In.Pos()), "new writer of Transaction.SignedAddr")
-			// constructors of common.Address called in the writer
-			set := map[string]bool{}
-			for _, k := range an.Calls(fn) {
-				f := k.Common().StaticCallee()
-				if f == nil || f.Signature.Results().Len() == 0 || addrT == nil {
-					continue
-				}
-				if types.Identical(f.Signature.Results().At(0).Type(), addrT.Type()) {
-					set[f.Name()] = true
-				}
-			}
-			var cs []string
-			for k := range set {
-				cs = append(cs, k)
-			}
-			sort.Strings(cs)
-			ctors[name] = cs
-			// the stored list: built by append from an empty slice
-			for _, s := range an.AllSources(w.Val) {
-				s = an.Origin(s)
-				if mk, isMk := s.(*ssa.MakeSlice); isMk {
-					k, isK := mk.Len.(*ssa.Const)
-					c.Check(isK && k.Value != nil && k.Value.String() == "0", "frame|SignedAddr|"+name+"|no-zero-tail", "the signer list is grown by append from an empty slice (a pre-sized make would leave zero addresses — a witness nobody signed for)", c.P.Rel(mk.Pos()),
-						"a slice made with non-zero length flows into SignedAddr without being re-sliced to the number of signers")
-				}
-			}
-		}
-	}
-	sort.Strings(writers)
-	c.Extra["signedaddr_writers"] = writers
-	c.Extra["address_constructors_by_writer"] = ctors
-	c.RequireMin("writers of Transaction.SignedAddr", len(writers), 3)
-	v, f := ctors["core/validation.checkTransactionSignatures"], ctors["(*core/types.Transaction).GetSignatureAddresses"]
-	c.Check(strings.Join(v, ",") == strings.Join(f, ",") && len(v) > 0, "siblings|SignedAddr|ont-validator-vs-fallback-derivation",
-		"the validator and the sealed-block fallback derive the signer accounts of an Ontology-format transaction in the same way (same address constructors over the same inputs)", "-",
-		fmt.Sprintf("validator uses {%s} on the parsed keys; fallback uses {%s} on the raw verification script — they differ for every script GetProgramInfo accepts that is not the canonical encoding of its keys (unsorted m-of-n keys, non-minimal pushes, Ethereum-type keys)", strings.Join(v, ","), strings.Join(f, ",")))
+	signedAddrRule(c)
 	// purity of derivation functions w.r.t. process-wide mutable state
 	var roots []*ssa.Function
 	for _, n := range []string{"core/types.AddressFromPubKey", "core/types.AddressFromMultiPubKeys", "core/types.AddressFromBookkeepers", "common.AddressFromVmCode",
@@ -123,6 +62,77 @@ func runC17(c *an.Ctx) {
 	if bad == 0 {
 		c.Hold("purity|address-derivation", "address/script derivation is a pure function of its arguments: no process-wide mutable state (cache, registry) on the derivation path", "-", fmt.Sprintf("%d functions", len(fns)))
 	}
+}
+
+// signedAddrRule: writers of Transaction.SignedAddr are confined, build the
+// list by append, and the two Ontology-format writers agree (A11).
+func signedAddrRule(c *an.Ctx) {
+	field := c.P.Field("core/types.Transaction.SignedAddr")
+	if field == nil {
+		c.Undecide("anchor|Transaction.SignedAddr", "anchors must resolve", "-", "field not found")
+		return
+	}
+	addrT, _ := c.P.Obj("common.Address").(*types.TypeName)
+	allowed := map[string]string{
+		"core/types.TransactionFromEIP155":                  "eip155",
+		"(*core/types.Transaction).GetSignatureAddresses":   "ont-fallback",
+		"core/validation.checkTransactionSignatures":        "ont-validator",
+		"(*core/types.MutableTransaction).IntoImmutable":    "construction (no signer set)",
+	}
+	ctors := map[string][]string{}
+	var writers []string
+	for _, fn := range c.P.RepoSrcFuncs() {
+		if strings.HasSuffix(c.P.Fset.Position(fn.Pos()).Filename, "_test.go") {
+			continue
+		}
+		for _, w := range an.DirectFieldWrites(fn) {
+			if w.Field != field || w.Kind != "store" {
+				continue
+			}
+			name := an.FuncName(fn)
+			writers = append(writers, name)
+			_, ok := allowed[name]
+			if strings.HasPrefix(name, "wasmtest/") {
+				c.Note("confine|SignedAddr|"+name, "only the validator, the sealed-block fallback and the EIP-155 decoder assign the signer set", c.P.Rel(w.In.Pos()), "wasmtest is the wasm test-runner program; it is not part of the node")
+				continue
+			}
+			c.Check(ok, "confine|SignedAddr|"+name, "only the validator, the sealed-block fallback and the EIP-155 decoder assign the signer set", c.P.Rel(w.In.Pos()), "new writer of Transaction.SignedAddr")
+			// constructors of common.Address called in the writer
+			set := map[string]bool{}
+			for _, k := range an.Calls(fn) {
+				f := k.Common().StaticCallee()
+				if f == nil || f.Signature.Results().Len() == 0 || addrT == nil {
+					continue
+				}
+				if types.Identical(f.Signature.Results().At(0).Type(), addrT.Type()) {
+					set[f.Name()] = true
+				}
+			}
+			var cs []string
+			for k := range set {
+				cs = append(cs, k)
+			}
+			sort.Strings(cs)
+			ctors[name] = cs
+			// the stored list: built by append from an empty slice
+			for _, s := range an.AllSources(w.Val) {
+				s = an.Origin(s)
+				if mk, isMk := s.(*ssa.MakeSlice); isMk {
+					k, isK := mk.Len.(*ssa.Const)
+					c.Check(isK && k.Value != nil && k.Value.String() == "0", "frame|SignedAddr|"+name+"|no-zero-tail", "the signer list is grown by append from an empty slice (a pre-sized make would leave zero addresses — a witness nobody signed for)", c.P.Rel(mk.Pos()),
+						"a slice made with non-zero length flows into SignedAddr without being re-sliced to the number of signers")
+				}
+			}
+		}
+	}
+	sort.Strings(writers)
+	c.Extra["signedaddr_writers"] = writers
+	c.Extra["address_constructors_by_writer"] = ctors
+	c.RequireMin("writers of Transaction.SignedAddr", len(writers), 3)
+	v, f := ctors["core/validation.checkTransactionSignatures"], ctors["(*core/types.Transaction).GetSignatureAddresses"]
+	c.Check(strings.Join(v, ",") == strings.Join(f, ",") && len(v) > 0, "siblings|SignedAddr|ont-validator-vs-fallback-derivation",
+		"the validator and the sealed-block fallback derive the signer accounts of an Ontology-format transaction in the same way (same address constructors over the same inputs)", "-",
+		fmt.Sprintf("validator uses {%s} on the parsed keys; fallback uses {%s} on the raw verification script — they differ for every script GetProgramInfo accepts that is not the canonical encoding of its keys (unsorted m-of-n keys, non-minimal pushes, Ethereum-type keys)", strings.Join(v, ","), strings.Join(f, ",")))
 }
 
 func isErrorType(t types.Type) bool {
